@@ -7,7 +7,25 @@ pub enum FailKind {
     Error,
     /// `write` returns Ok(0)
     Zero,
+    /// `write` returns an error of the i-th kind of `ERROR_KINDS`
+    Kind(usize),
 }
+
+/// io::ErrorKind values a sink may report (the save path must treat them all alike, except Interrupted)
+pub const ERROR_KINDS: [ErrorKind; 12] = [
+    ErrorKind::InvalidData,
+    ErrorKind::InvalidInput,
+    ErrorKind::WouldBlock,
+    ErrorKind::TimedOut,
+    ErrorKind::BrokenPipe,
+    ErrorKind::UnexpectedEof,
+    ErrorKind::WriteZero,
+    ErrorKind::Unsupported,
+    ErrorKind::OutOfMemory,
+    ErrorKind::PermissionDenied,
+    ErrorKind::NotFound,
+    ErrorKind::AlreadyExists,
+];
 
 #[derive(Debug, Clone, Default)]
 pub struct Script {
@@ -59,6 +77,7 @@ impl Write for ScriptSink {
                 return match &kind {
                     FailKind::Error => Err(Error::new(ErrorKind::Other, "injected sink failure")),
                     FailKind::Zero => Ok(0),
+                    FailKind::Kind(i) => Err(Error::new(ERROR_KINDS[*i % ERROR_KINDS.len()], "injected sink failure")),
                 };
             }
             n = n.min(remaining);
